@@ -66,6 +66,7 @@ def run_one(w, job):
 def main():
     ap = argparse.ArgumentParser()
     ap.add_argument("--workers", type=int, default=4)
+    ap.add_argument("--property", default=None, help="only changes that break this property / all preserving; result goes to seeded/REGRESSION-<property>.json")
     a = ap.parse_args()
     shutil.rmtree(ROOT, ignore_errors=True)
     sh(f"git -C {REPO} worktree prune")
@@ -83,6 +84,11 @@ def main():
         if os.path.exists(d + "patch.diff"):
             jobs.append({"id": os.path.basename(d.rstrip("/")), "kind": "preserving", "dir": d.rstrip("/"),
                          "checks": ["C05", "C08", "C09", "C10", "C11"]})
+    if a.property:
+        jobs = [j for j in jobs if j["kind"] == "preserving" or a.property in j["checks"]]
+        for j in jobs:
+            if j["kind"] == "preserving":
+                j["checks"] = [a.property]
     # property-preserving changes first: a false alarm is the more urgent news
     jobs.sort(key=lambda j: (j["kind"] != "preserving", j["id"]))
     q = queue.Queue()
@@ -118,7 +124,7 @@ def main():
     json.dump({"verif_commit_at_run": head, "all_as_expected": ok,
                "breaking": sum(r["kind"] == "breaking" for r in results),
                "preserving": sum(r["kind"] == "preserving" for r in results),
-               "results": results}, open(f"{VERIF}/seeded/REGRESSION.json", "w"), indent=1)
+               "results": results}, open(f"{VERIF}/seeded/REGRESSION" + (f"-{a.property}" if a.property else "") + ".json", "w"), indent=1)
     print("all as expected:", ok)
     shutil.rmtree(ROOT, ignore_errors=True)
 
